@@ -23,6 +23,7 @@ import (
 	"github.com/foxcpp/go-mockdns"
 	"github.com/foxcpp/maddy/framework/buffer"
 	"github.com/foxcpp/maddy/framework/config"
+	modconfig "github.com/foxcpp/maddy/framework/config/module"
 	"github.com/foxcpp/maddy/framework/exterrors"
 	"github.com/foxcpp/maddy/framework/module"
 	"github.com/foxcpp/maddy/internal/testutils"
@@ -52,13 +53,35 @@ func (r *v6Run) call(check, st int, stage string) module.CheckResult {
 	r.log = append(r.log, fmt.Sprintf("(%s, %s, %s)", cN(check), cN(st), stage))
 	v := r.script[key]
 	r.mu.Unlock()
+	// the verdict goes through the action mapping of the configuration layer (fail_action and
+	// friends): what the check found (permanent, temporary, unclassified) and the status configured
+	// for the action (none, 4yz, 5yz) vary with the call and must not change the verdict
+	h := (check*31 + len(stage)*7 + int(stage[len(stage)-1])) % 12
+	var reason error
+	switch h % 4 {
+	case 0:
+		reason = &exterrors.SMTPError{Code: 550, EnhancedCode: exterrors.EnhancedCode{5, 7, 1}, Message: "scripted finding"}
+	case 1:
+		reason = &exterrors.SMTPError{Code: 451, EnhancedCode: exterrors.EnhancedCode{4, 7, 1}, Message: "scripted temporary finding"}
+	case 2:
+		reason = exterrors.WithTemporary(errors.New("lookup timed out"), true)
+	default:
+		reason = errors.New("scripted finding")
+	}
+	var override *exterrors.SMTPError
+	switch h / 4 {
+	case 1:
+		override = &exterrors.SMTPError{Code: 554, EnhancedCode: exterrors.EnhancedCode{5, 7, 0}, Message: "configured status"}
+	case 2:
+		override = &exterrors.SMTPError{Code: 450, EnhancedCode: exterrors.EnhancedCode{4, 7, 0}, Message: "configured status"}
+	}
 	switch v {
 	case vIgnore:
-		return module.CheckResult{Reason: errors.New("ignored reason")}
+		return modconfig.FailAction{}.Apply(module.CheckResult{Reason: reason})
 	case vQuar:
-		return module.CheckResult{Reason: errors.New("quarantine reason"), Quarantine: true}
+		return modconfig.FailAction{Quarantine: true, ReasonOverride: override}.Apply(module.CheckResult{Reason: reason})
 	case vReject:
-		return module.CheckResult{Reason: &exterrors.SMTPError{Code: 550, EnhancedCode: exterrors.EnhancedCode{5, 7, 1}, Message: "scripted reject"}, Reject: true}
+		return modconfig.FailAction{Reject: true, ReasonOverride: override}.Apply(module.CheckResult{Reason: reason})
 	}
 	return module.CheckResult{}
 }
